@@ -701,6 +701,128 @@ pub fn c18_structure() {
         }
     }
 }
+/// What the CEL specification assigns to a string / bytes literal token (None: not a token the lexer can produce).
+fn literal_reference(text: &[char]) -> Option<Result<(bool, Vec<u32>), ()>> {
+    let mut t = text;
+    let is_bytes = matches!(t.first(), Some('b') | Some('B'));
+    if is_bytes {
+        t = &t[1..];
+    }
+    let raw = matches!(t.first(), Some('r') | Some('R'));
+    if raw {
+        t = &t[1..];
+    }
+    let q = *t.first()?;
+    if q != '\'' && q != '"' {
+        return None;
+    }
+    let triple = t.len() >= 6 && t[1] == q && t[2] == q;
+    let d = if triple { 3 } else { 1 };
+    if t.len() < 2 * d || t[t.len() - d..].iter().any(|c| *c != q) {
+        return None;
+    }
+    let body = &t[d..t.len() - d];
+    let mut out: Vec<u32> = Vec::new();
+    let push_char = |out: &mut Vec<u32>, c: char| {
+        if is_bytes {
+            let mut b = [0u8; 4];
+            out.extend(c.encode_utf8(&mut b).bytes().map(|x| x as u32));
+        } else {
+            out.push(c as u32);
+        }
+    };
+    let mut k = 0;
+    while k < body.len() {
+        let c = body[k];
+        if triple {
+            if k + 2 < body.len() && body[k] == q && body[k + 1] == q && body[k + 2] == q {
+                return None;
+            }
+        } else if c == q || c == '\n' || c == '\r' {
+            return None;
+        }
+        if c != '\\' || raw {
+            push_char(&mut out, c);
+            k += 1;
+            continue;
+        }
+        let e = *body.get(k + 1)?;
+        let digits = |from: usize, n: usize, radix: u32| -> Option<u32> {
+            let mut v: u32 = 0;
+            for j in 0..n {
+                v = v.checked_mul(radix)?.checked_add(body.get(from + j)?.to_digit(radix)?)?;
+            }
+            Some(v)
+        };
+        let simple = match e {
+            'a' => Some(7u32), 'b' => Some(8), 'f' => Some(12), 'n' => Some(10), 'r' => Some(13), 't' => Some(9), 'v' => Some(11),
+            '\\' | '?' | '"' | '\'' | '`' => Some(e as u32),
+            _ => None,
+        };
+        if let Some(v) = simple {
+            out.push(v);
+            k += 2;
+        } else if e == 'x' || e == 'X' {
+            let v = digits(k + 2, 2, 16)?;
+            if is_bytes { out.push(v) } else { push_char(&mut out, char::from_u32(v)?) }
+            k += 4;
+        } else if e == 'u' || e == 'U' {
+            let n = if e == 'u' { 4 } else { 8 };
+            let mut v: u64 = 0;
+            for j in 0..n {
+                v = v * 16 + body.get(k + 2 + j)?.to_digit(16)? as u64;
+            }
+            if is_bytes {
+                return Some(Err(()));
+            }
+            match u32::try_from(v).ok().and_then(char::from_u32) {
+                Some(ch) => out.push(ch as u32),
+                None => return Some(Err(())),
+            }
+            k += 2 + n;
+        } else if ('0'..='3').contains(&e) {
+            let v = digits(k + 1, 3, 8)?;
+            out.push(v);
+            k += 4;
+        } else {
+            return None;
+        }
+    }
+    Some(Ok((is_bytes, out)))
+}
+/// C12: a string / bytes literal token evaluates to the value the specification assigns to its text.
+pub fn c12_literal() {
+    let n: u8 = any();
+    crate::sym::assume(n <= 24);
+    let mut text: Vec<char> = Vec::new();
+    for _ in 0..n {
+        let c: u32 = any();
+        match char::from_u32(c) {
+            Some(ch) => text.push(ch),
+            None => {
+                crate::sym::assume(false);
+                return;
+            }
+        }
+    }
+    let Some(want) = literal_reference(&text) else {
+        crate::sym::assume(false);
+        return;
+    };
+    let src: String = text.iter().collect();
+    let got = Program::compile(&src).map(|p| p.execute(&Context::default()));
+    match want {
+        Err(()) => check!(got.is_err(), "a literal whose escape names no valid value is a compile error"),
+        Ok((false, cps)) => {
+            let s: String = cps.iter().map(|c| char::from_u32(*c).unwrap()).collect();
+            check!(matches!(&got, Ok(Ok(Value::String(v))) if **v == s), "a string literal evaluates to the text it denotes");
+        }
+        Ok((true, bytes)) => {
+            let b: Vec<u8> = bytes.iter().map(|x| *x as u8).collect();
+            check!(matches!(&got, Ok(Ok(Value::Bytes(v))) if **v == b), "a bytes literal evaluates to the bytes it denotes");
+        }
+    }
+}
 /// C13 literal half: an int / uint literal in either radix with an optional sign evaluates to the number
 /// it denotes, or is a compile error when that number does not fit.
 pub fn c13_literal() {
@@ -1084,6 +1206,7 @@ crate::replay_only! {
     #[kani::unwind(2)] c10_unsupported_nodes: "off", "same body", "same";
     #[kani::unwind(2)] c19_unsupported_nodes: "off", "same body", "same";
     #[kani::unwind(2)] c18_structure: "off", "lists, maps and bytes through Value::json against the documented document shape", "lists of 0-3, thirteen key sets, byte strings of 0-6";
+    #[kani::unwind(2)] c12_literal: "off", "a string / bytes literal token through Program::compile + execute against an independent decoder of the CEL literal syntax", "token text of up to 24 characters taken from the vector";
     #[kani::unwind(2)] c13_literal: "off", "int / uint literals of every sign, radix and magnitude through Program::compile + execute", "text built from the vector";
     #[kani::unwind(2)] c13_double_literal: "off", "eight double literal texts", "fixed list";
     #[kani::unwind(2)] c14_concat: "off", "Value + Value on lists / strings with controlled Arc sharing", "lengths 0-3, reference counts 1-4, x + x";
